@@ -14,14 +14,16 @@ CLAIMED = {
              "parser, framing decision, length/chunked readers, pipelining) over bounded stream families x every "
              "segmentation, against the strict RFC 9112 reading (specs/HttpStream.tla); the same families are emitted "
              "by TLC, concretized to bytes (several spellings per line class) and pushed through the real "
-             "gunicorn.http.RequestParser; every recorded trace is judged by TLC against specs/HttpTrace.tla.",
+             "gunicorn.http.RequestParser; every recorded trace is judged by TLC against specs/HttpTrace.tla."
+             " The same streams are also served through the real handle() of the sync / gthread / async workers; the requests that reach the application (parse offset, body) are judged by the same monitor.",
         design_ref="DESIGN.md 4 C01, 9",
         technique="TLA+ model checking (TLC) of a parser model vs. a strict-reading oracle + TLC trace validation of real parser runs"),
     "C06": dict(
         text="TLC explores every segmentation (reads of 1..MaxRecv symbols) of every stream of the bounded families; "
              "the terminal observation is pinned to a function of the stream alone. Real parser: each concretized stream is "
              "run whole, byte-by-byte, with every single cut, sampled pairs and random cuts, through IterUnreader and "
-             "SocketUnreader; real-scale streams with delimiters at 8190..8193; TLC judges equality of observations per stream.",
+             "SocketUnreader; real-scale streams with delimiters at 8190..8193; TLC judges equality of observations per stream."
+             " Worker-level runs (gthread / async handle() with keep-alive hand-backs) are digested per segmentation as well.",
         design_ref="DESIGN.md 4 C06, 9",
         technique="TLA+ model checking of all segmentations + TLC-validated differential traces of the real parser"),
     "C12": dict(
@@ -39,7 +41,8 @@ CLAIMED = {
              "NeverReadsPastBody); TLC -simulate behaviours are replayed on the real wsgi.input; seeded real-scale programs "
              "(sizes around 1024/8192, Content-Length and chunked framings, 1-byte chunks, chunk boundaries at block "
              "boundaries, random segmentations, pipelined follower) are judged by TLC against specs/BodyTrace.tla, "
-             "including the offset at which the next request is parsed.",
+             "including the offset at which the next request is parsed."
+             " Worker-level runs (late body tails on kept-alive connections through gthread / async handle()) use the same monitor.",
         design_ref="DESIGN.md 4 C07, 9",
         technique="TLA+ model checking of the wsgi.input algorithm vs. file semantics + TLC trace validation of real call sequences"),
     "C02": dict(
@@ -68,7 +71,8 @@ CLAIMED = {
              "requests truncated at every offset, mutated requests and random bytes, combined with a client reset at every read "
              "and a dead socket at every written byte, are served by the real handle() of the three worker families; the same "
              "worker object then serves a normal connection; wire (strict response reader) and worker state are judged by TLC "
-             "against specs/ConnTrace.tla.",
+             "against specs/ConnTrace.tla."
+             " PROXY-protocol peers (listed / unlisted) and, on real processes with TLS listeners, peers that do not complete the handshake (lazy and on-connect handshake) are included.",
         design_ref="DESIGN.md 4 C05, 9",
         technique="TLA+ model checking of the error-handling ladders + TLC trace validation of hostile connections served by the real handle()"),
     "C19": dict(
@@ -109,7 +113,8 @@ CLAIMED = {
              "real SyncWorker.run loop on a scripted listener) and by real processes (python -m gunicorn --max-requests M "
              "--max-requests-jitter J for sync / gthread / gevent / eventlet under sequential and concurrent clients, every "
              "response naming the serving pid, process table read after a quiescent tail); TLC judges every run against "
-             "specs/RecycleTrace.tla.",
+             "specs/RecycleTrace.tla."
+             " Real-process modes: sequential, concurrent, burst (queued jobs), parked keep-alive connection, long request draining past --timeout; Recycle.tla models keep-alive connections (WorkAfterLimitBounded).",
         design_ref="DESIGN.md 4 C18, 9",
         technique="TLA+ model checking of the recycling rule + TLC trace validation of in-process worker loops and real gunicorn processes"),
     "C14": dict(
@@ -120,7 +125,8 @@ CLAIMED = {
              "rollback, second USR2 while pending, rollback then upgrade again, chained upgrade, USR2 to the un-promoted master) "
              "run from the working tree under a background client load; pid files, socket file, process table and refused "
              "connections at quiescent checkpoints are validated by TLC against specs/UpgradeTrace.tla, whose ops drive the "
-             "Upgrade actions (clauses on observed values = verdict; difference from the model state = drift).",
+             "Upgrade actions (clauses on observed values = verdict; difference from the model state = drift)."
+             " Histories include WINCH / HUP on a daemonized old master, a new release that cannot boot, and runs without a configured pid file.",
         design_ref="DESIGN.md 4 C14, 9",
         technique="TLA+ model checking of the two-master protocol + TLC trace validation of real upgrade histories"),
     "C16": dict(
@@ -129,7 +135,8 @@ CLAIMED = {
              "MostAuthoritativeWins, UnmentionedUntouched, InvalidStopsStartup, ValidStarts; TLC emits the cases, each is "
              "instantiated for every setting in KNOWN_SETTINGS with values per validator family and loaded through a real "
              "WSGIApplication (argv, GUNICORN_CMD_ARGS, generated config files, framework defaults); TLC judges every load "
-             "(specs/ConfigMergeTrace.tla).",
+             "(specs/ConfigMergeTrace.tla)."
+             " Cases include invalid values that compare equal to the value in force and a reload after the chosen file stopped mentioning the setting (model action Reload).",
         design_ref="DESIGN.md 4 C16, 9",
         technique="TLA+ decision-table model checked on the full product; TLC-emitted cases replayed into the real config loader for all 93 settings; TLC judges outcomes",
         note="Transcribed-function use of the technique (DESIGN.md 6). "),
@@ -139,7 +146,8 @@ CLAIMED = {
              "<= 6-7 operations) against RefusesLiveForeign, TakesOverStale, NeverPartialContent, UnlinkOnlyOwn, RenameOnlyOwn, "
              "NeverDeletesForeign, RenameMoves; TLC behaviours, enumerated short histories and seeded random histories are "
              "replayed on the real Pidfile class over a scratch directory (real file-system calls, simulated process table, crash "
-             "and short-write injection at every call) and judged call by call by TLC (specs/PidfileTrace.tla).",
+             "and short-write injection at every call) and judged call by call by TLC (specs/PidfileTrace.tla)."
+             " Two instances inside create() with every interleaving of their system calls (specs/PidfileConcTrace.tla, bound to the model's SharedTmp deviation) and a real master's pid file through the life of its workers (specs/PidfileRealTrace.tla) are included.",
         design_ref="DESIGN.md 4 C17, 9",
         technique="TLA+ model checking at system-call grain with crash injection + TLC trace validation of histories replayed on the real Pidfile class"),
     "C20": dict(
@@ -149,7 +157,8 @@ CLAIMED = {
              "DropBeforeLoad, MasterKeepsIdentity, HeartbeatWritable, PermittedDropSucceeds; every case runs on the real "
              "Worker.init_process / set_owner_process over a recording fake kernel and in real forked processes as root "
              "(www-data, nobody, uid without passwd entry), plus real gunicorn servers (initial, respawned and post-HUP "
-             "workers read from /proc); TLC judges each record (specs/PrivsTrace.tla).",
+             "workers read from /proc); TLC judges each record (specs/PrivsTrace.tla)."
+             " Real servers include settings given through GUNICORN_CMD_ARGS, the workers of a USR2-started master and a HUP with an invalid configuration file.",
         design_ref="DESIGN.md 4 C20, 9",
         technique="TLA+ model of kernel credential semantics checked on the full product + TLC trace validation of real credential drops"),
     "C13": dict(
@@ -160,7 +169,8 @@ CLAIMED = {
              "NoCloseWhileHandled, NoPendingDroppedAtExit, liveness ServedIfThreadFree, EventuallyClosed, ReturnsToZero, "
              "ReapedWhenExpired under fairness. TLC -simulate behaviours are replayed into the REAL ThreadWorker.run() over a "
              "scripted selector / sockets / executor with virtual time (projected state compared after every step), plus "
-             "scripted scenarios and seeded random schedules; all runs are judged by TLC against specs/GThreadTrace.tla.",
+             "scripted scenarios and seeded random schedules; all runs are judged by TLC against specs/GThreadTrace.tla."
+             " Real gthread processes (segmented requests on kept-alive connections, wall-clock keep-alive) are judged against specs/GThreadRealTrace.tla.",
         design_ref="DESIGN.md 4 C13, 9",
         technique="TLA+ model checking (safety + liveness) of the threaded worker + TLC trace validation of the real ThreadWorker.run() under scheduled interleavings"),
     "C03": dict(
@@ -171,7 +181,8 @@ CLAIMED = {
              "fault and signal budgets. The REAL Arbiter.run() runs in-process on a simulated kernel (fork/kill/waitpid/select/"
              "time/signal replaced inside gunicorn.arbiter only; real WorkerTmp heartbeat files in virtual time); TLC -simulate "
              "behaviours are replayed (projected state compared after every master operation), explicit dangerous windows "
-             "and seeded random schedules are recorded; every run is judged by TLC against specs/ArbiterTrace.tla.",
+             "and seeded random schedules are recorded; every run is judged by TLC against specs/ArbiterTrace.tla."
+             " Real servers whose workers cannot boot are judged against specs/BootTrace.tla.",
         design_ref="DESIGN.md 4 C03, 9",
         technique="TLA+ model checking (safety + liveness) of the master loop with an asynchronous SIGCHLD handler + TLC trace validation of the real Arbiter.run() on a simulated kernel"),
     "C04": dict(
